@@ -4,3 +4,6 @@ set -e
 cd "$(dirname "$0")"
 export CARGO_NET_OFFLINE=true
 ( cd harness && cargo build --release --offline 2>&1 | tail -3 )
+( cd harness && cargo build --offline 2>&1 | tail -1 )
+# every specification module must parse
+sh lib/sany_all.sh
